@@ -33,12 +33,12 @@ Proof.
   - exists []. split; [reflexivity|]. split; [constructor|]. intros (e & q & []).
   - assert (AR : about p (EReq e p) = true) by (cbn; apply ln_eqb_refl).
     change (add_event st (EReq e p)) with (apply_event c st (EReq e p)).
-    destruct (c_required c e p).
+    destruct (req c e p size ff).
     + destruct (run_extractor_apply c e p ff (apply_event c st (EReq e p))) as (ev & EX & AE).
       destruct ((0 <? c_max_size c)%Z && negb checked) eqn:CK.
       * apply andb_true_iff in CK as [M NC]. apply negb_true_iff in NC. subst checked.
         destruct (ff_stat ff).
-        { exists [EReq e p]. split; [reflexivity|]. split; [constructor; [exact AR|constructor]|].
+        { exists [EReq e p]. split; [destruct (c_fatal c); reflexivity|]. split; [constructor; [exact AR|constructor]|].
           intros (e' & q & [H|[]]). discriminate. }
         destruct (c_max_size c <? size)%Z eqn:SZ.
         { exists [EReq e p]. split; [reflexivity|]. split; [constructor; [exact AR|constructor]|].
@@ -373,8 +373,8 @@ Proof. unfold apply_call. rewrite apply_events_inodes. destruct st; reflexivity.
 Lemma ext_events_visits c p sz ff : forall es checked, visits (ext_events c p sz ff es checked) = [].
 Proof.
   induction es as [|e es IH]; intros checked; [reflexivity|]. cbn [ext_events visits].
-  destruct (c_required c e p); [|apply IH].
-  destruct ((0 <? c_max_size c)%Z && negb checked && (c_max_size c <? sz)%Z); [reflexivity|].
+  destruct (req c e p sz ff); [|apply IH].
+  destruct ((0 <? c_max_size c)%Z && negb checked && (ff_stat ff || (c_max_size c <? sz)%Z)); [reflexivity|].
   rewrite visits_app, IH, app_nil_r. destruct (ff_open ff); [reflexivity|]. destruct (ff_fstat ff); reflexivity.
 Qed.
 
